@@ -5,6 +5,7 @@ pub mod oracle;
 pub mod rec;
 pub mod util;
 
+pub mod bfs;
 pub mod fe;
 pub mod modes;
 
@@ -12,6 +13,9 @@ pub mod c01;
 pub mod c02;
 pub mod c03;
 pub mod c05;
+pub mod c07;
+pub mod c08;
+pub mod c09;
 pub mod c12;
 pub mod c13;
 pub mod c14;
@@ -24,7 +28,7 @@ use std::time::Instant;
 type CheckFn = fn(&Ctx) -> Outcome;
 
 fn checks() -> Vec<(&'static str, CheckFn)> {
-    vec![("C01", c01::run as CheckFn), ("C02", c02::run as CheckFn), ("C03", c03::run as CheckFn), ("C05", c05::run as CheckFn), ("C12", c12::run as CheckFn), ("C13", c13::run as CheckFn), ("C14", c14::run as CheckFn)]
+    vec![("C01", c01::run as CheckFn), ("C02", c02::run as CheckFn), ("C03", c03::run as CheckFn), ("C05", c05::run as CheckFn), ("C07", c07::run as CheckFn), ("C08", c08::run as CheckFn), ("C09", c09::run as CheckFn), ("C12", c12::run as CheckFn), ("C13", c13::run as CheckFn), ("C14", c14::run as CheckFn)]
 }
 
 struct Args {
